@@ -437,6 +437,8 @@ def _run(rep, pid, tier):
     info = constcheck.translate(rep)
     if info is None:
         return rep.finish()
+    import cbmccheck
+    cb_handle = cbmccheck.start(["intervals"])       # symbolic tie of rtr_check_interval_option to applyIv, every input
     proved = vlib.prove(rep, MODULES, THEOREMS, extra_targets=["constdriver"])
     if proved and tier == "thorough":
         ok, log = vlib.leanchecker(MODULES[0])
@@ -544,7 +546,10 @@ def _run(rep, pid, tier):
         k, io, mo = diverge[0]
         rep.build_log = "line %d: %s\n impl : %s\n model: %s" % (k, lines[k], io, mo)
         vlib.proof_failure(rep, "correspondence consts/intervals (RtrModel.Intervals vs packets.c / rtr.c / rtr_mgr.c) diverges")
-    if not proved and not fails and not diverge:
+    cb_failed = cbmccheck.collect(rep, cb_handle)
+    if cb_failed and not fails:
+        cbmccheck.report_no_input(rep, cb_failed)
+    elif not proved and not fails and not diverge:
         vlib.proof_failure(rep, "\n".join(t for t, ok in rep.obligations.items() if not ok))
     return rep.finish()
 
